@@ -78,6 +78,9 @@ def corrupt_apply(run):
 def run(ctx):
     ctx.build(BIN)
     # --- the executable semantics: laws, and the codec model pinned to the loop condition of the code
+    # --- the contract itself: what answers Decompress allows (must succeed / never wrong / stale may refuse)
+    ctx.tlc_mc("MC_CompressorFraming", workers=2, required_actions=("Compress", "Decompress", "Switch"),
+               note="laws of the framing contract: 3 frame ids x 2 payloads x 2 frames x 3 configuration epochs")
     deep = "_deep" if ctx.thorough else ""
     ctx.tlc_mc("MC_PaZipStream", cfg="MC_PaZipStream%s.cfg" % deep, workers=4,
                note="PaZipStream laws: copy closed form, field-width table, codec round trip with the repaired loop condition (LoopBits=8)")
